@@ -195,7 +195,7 @@ var (
 )
 
 func c11qOverBudget() bool {
-	b := 60 * time.Second
+	b := 20 * time.Second
 	if os.Getenv("VERIF_TIER") == "thorough" {
 		b = 420 * time.Second
 	}
